@@ -225,7 +225,7 @@ def run_family(facts, fam, tier):
             ctx = A.Cat([S, A.anystar()])
             for ename in names[:names.index(what)]:
                 t1 = time.time()
-                g = A.Group({"CTX": ctx, "E": A.Cat([rule[ename], A.anystar()])})
+                g = A.Group({"CTX": ctx, "E": A.prefix_of(rule[ename])})
                 out.append(C06.ares(f"C19:odata_query.grammar.ODataLexer.{what}:regex.opshadow[{ename}]", "regex.opshadow",
                                     g.intersect_witness("CTX", "E"), t1, {"token": what, "earlier": ename, "spec": spec}))
             return out
@@ -241,7 +241,7 @@ def run_family(facts, fam, tier):
             ctx = P.parse(ws + "+(?:" + toks + ")(?:" + delim + "[\\s\\S]*)?", 0)
             kws = "|".join(ci(k) for k in list(L.KEYWORD_OPERATORS.values()))
             exc = P.parse(ws + "+(?:" + kws + ")" + ws + "[\\s\\S]*", 0)
-            g = A.Group({"CTX": ctx, "E": A.Cat([rule[what], A.anystar()]), "X": exc})
+            g = A.Group({"CTX": ctx, "E": A.prefix_of(rule[what]), "X": exc})
             w = g.find(["CTX", "E", "X"], lambda f: f[0] and f[1] and not f[2])
             return [C06.ares(f"C19:odata_query.grammar.ODataLexer.{what}:regex.wsshadow", "regex.wsshadow", w, t0, {"token": what})]
         if fam.startswith("regex.kw["):
